@@ -141,7 +141,10 @@ class Program(object):
             address += statement.code_pkg.size
 
         for index, statement in enumerate(self.statements):
-            statement.fix_addresses(self.statements, index)
+            try:
+                statement.fix_addresses(self.statements, index)
+            except (ValueTypeError, ZeroDivisionError) as error:
+                raise TranslationError(str(error), statement)
             statement.fit_operand_to_reserved_size()
 
         # Update the symbol table with the proper addresses
